@@ -132,6 +132,50 @@ def gen_case(rnd, g):
     return case
 
 
+ENTITIES = {"~~": "~", "~_": "-", "~I": "/", "~/": "/", "~h": "http://", "~H": "https://", "~f": "file://", "~P": "://", "~.": " "}
+
+
+def independent_decode(raw):
+    """independent decoding of the as-typed text of one plain argument (documented entities, then percent-decoding;
+    a literal '+' stays a '+')"""
+    out = []
+    i = 0
+    while i < len(raw):
+        two = raw[i:i + 2]
+        if two in ENTITIES:
+            out.append(ENTITIES[two].encode())
+            i += 2
+        elif raw[i] == "~" and i + 1 < len(raw) and raw[i + 1].isdigit():
+            out.append(b"-" + raw[i + 1].encode())
+            i += 2
+        elif raw[i] == "%" and i + 2 < len(raw) + 0 and all(c in "0123456789abcdefABCDEF" for c in raw[i + 1:i + 3]) and len(raw[i + 1:i + 3]) == 2:
+            out.append(bytes([int(raw[i + 1:i + 3], 16)]))
+            i += 3
+        else:
+            out.append(raw[i].encode("utf-8"))
+            i += 1
+    return b"".join(out).decode("utf-8", "replace")
+
+
+def argument_texts(q, query, out):
+    """(as-typed slice, parsed string) of every plain argument, recursively through links"""
+    from liquer.parser import StringActionParameter, LinkActionParameter, TransformQuerySegment
+
+    for seg in query.segments:
+        if not isinstance(seg, TransformQuerySegment):
+            continue
+        for a in seg.query:
+            for prm in a.parameters:
+                if isinstance(prm, StringActionParameter):
+                    s = prm.position.offset
+                    e = s
+                    while e < len(q) and q[e] not in "-/" and not q.startswith("~E", e):
+                        e += 2 if q[e] == "~" and e + 1 < len(q) else 1
+                    out.append((q[s:e], prm.string))
+                elif isinstance(prm, LinkActionParameter):
+                    argument_texts(q, prm.link, out)
+
+
 def run_case(case, ref, counters):
     """returns (disagreements, outcome, kind)"""
     from liquer.parser import parse
@@ -146,6 +190,21 @@ def run_case(case, ref, counters):
     inp = None if case["input"] is None else INPUTS[case["input"]]
     extra = case["extra"]
     import copy
+
+    # the arguments the evaluator works with must be the documented decoding of what was typed
+    pre = []
+    if " " not in q:
+        try:
+            pairs = []
+            argument_texts(q, parsed, pairs)
+            for raw, got in pairs:
+                counters["argument_decodings_checked"] = counters.get("argument_decodings_checked", 0) + 1
+                want = independent_decode(raw)
+                if want != got:
+                    pre.append(("argument_text_decoding", "as-typed argument %r: documented decoding %r, parser delivered %r" % (raw, want, got)))
+                    break
+        except Exception:
+            counters["argument_decoding_oracle_errors"] = counters.get("argument_decoding_oracle_errors", 0) + 1
 
     saved = vocab.LOG
     vocab.use_log([])
@@ -167,7 +226,7 @@ def run_case(case, ref, counters):
     finally:
         signal.alarm(0)
     counters["commands_executed_real"] = counters.get("commands_executed_real", 0) + len(log)
-    return compare(out, kind, st), out, kind
+    return pre + compare(out, kind, st), out, kind
 
 
 def mechanism(case, out, field):
